@@ -20,6 +20,7 @@ package resource
 //@   ensures [remove] includeFunc != nil && o && !n ==> nc.ChangeType == types.ChangeType_REMOVE && nc.OldValue == old(recv.OldValue) && nc.NewValue == nil
 //@   ensures [idtime] ok ==> nc != nil && nc.Id == old(recv.Id) && nc.ChangeTime == old(recv.ChangeTime)
 //@   ensures [seedflag] ok && n ==> nc.SeedValue == old(recv.SeedValue)
+//@   ensures [seedflag-only] ok && nc.SeedValue ==> old(recv.SeedValue)
 //@   modifies nothing
 //@   replay Include(recv.OldValue != nil, recv.NewValue != nil, includeFunc == nil, includeFunc(recv.Id, recv.OldValue), includeFunc(recv.Id, recv.NewValue), includeFunc(recv.Id, nil), recv.ChangeType)
 //@
@@ -163,3 +164,31 @@ package resource
 //@     invariant chanSent(typedEvents) == 0 ==> last == currentValue
 //@     invariant chanSent(typedEvents) > 0 ==> chanSentAt(typedEvents, chanSent(typedEvents) - 1) != nil && (last == chanSentAt(typedEvents, chanSent(typedEvents) - 1).Value || (chanSent(typedEvents) == 1 && chanSentAt(typedEvents, 0).SeedValue && last == currentValue))
 //@     invariant isnil(currentValue) ==> forall k int :: 0 <= k && k < chanSent(typedEvents) ==> !chanSentAt(typedEvents, k).SeedValue
+//@
+//@ // ---- the goroutine that forwards a Collection's events to one subscriber (C04 seeds/edit script, C08 include before
+//@ // mask and equivalence, C06 projection, C10 close) ----
+//@ property C04 C06 C08 C10
+//@ pure func sortedById(vs) = forall i int, j int :: 0 <= i && i < j && j < len(vs) ==> vs[i].id <= vs[j].id
+//@
+//@ func (*Collection).Pull$1()
+//@   requires c != nil && c.config != nil && filter != nil && readConfig != nil && send != nil && !isnil(ctx)
+//@   requires chanSent(send) == 0 && !chanClosed(send)
+//@   requires forall k int :: istype(chanSeq(emit, k), *CollectionChange) && cast(chanSeq(emit, k), *CollectionChange) != nil && !cast(chanSeq(emit, k), *CollectionChange).SeedValue && allocated(cast(chanSeq(emit, k), *CollectionChange))
+//@   requires [masks-valid] filter.fields == nil
+//@   track include
+//@   // seeds: the snapshot in id order, kind ADD, stored change time, flagged seed, exactly the final one flagged last-seed
+//@   onsend send [seed]: sent != nil && (sent.SeedValue ==> chanSent(send) < len(currentValues) && sent.Id == currentValues[chanSent(send)].id &&
+//@   |   sent.ChangeTime == currentValues[chanSent(send)].changeTime && sent.ChangeType == types.ChangeType_ADD && isnil(sent.OldValue) &&
+//@   |   projected(sent.NewValue, currentValues[chanSent(send)].body, filter) && sent.LastSeedValue == (chanSent(send) == len(currentValues) - 1))
+//@   // updates: include is decided on the raw event, then the mask is applied; the forwarded event is include's verdict, projected
+//@   onsend send [include-first]: !sent.SeedValue ==> lastarg(include, 0) == cast(event, *CollectionChange) && lastcall(include, 1)
+//@   onsend send [update]: !sent.SeedValue ==> sent.Id == lastcall(include, 0).Id && sent.ChangeType == lastcall(include, 0).ChangeType && sent.ChangeTime == lastcall(include, 0).ChangeTime &&
+//@   |   projected(sent.NewValue, lastcall(include, 0).NewValue, filter) && projected(sent.OldValue, lastcall(include, 0).OldValue, filter)
+//@   onsend send [not-equivalent]: !sent.SeedValue && !isnil(c.config.equivalence) ==> !c.config.equivalence.Compare(sent.OldValue, sent.NewValue)
+//@   modifies E$resource.idItem
+//@   ensures [closed] chanClosed(send)
+//@   loop 0 (k):
+//@     assert [seeds-sorted] sortedById(currentValues)
+//@     invariant 0 <= k && k <= len(currentValues) && chanSent(send) == k && !chanClosed(send)
+//@   loop 1:
+//@     invariant !chanClosed(send) && chanSent(send) >= len(currentValues)
